@@ -405,6 +405,15 @@ Lemma flat_map_map_one {A B C} (f : A -> C -> B) (c : C) (l : list A) :
   flat_map (fun e => map (f e) [c]) l = map (fun e => f e c) l.
 Proof. induction l as [|x l IH]; [reflexivity|]. cbn [flat_map map app]. now f_equal. Qed.
 
+Lemma NoDup_map_filter (p : entry -> bool) (es : list entry) :
+  NoDup (map e_id es) -> NoDup (map e_id (filter p es)).
+Proof.
+  induction es as [|e es IH]; intros H; [constructor|]. cbn [map] in H. inversion H as [|? ? Hx Hn]; subst.
+  cbn [filter]. destruct (p e); [|exact (IH Hn)]. cbn [map]. constructor; [|exact (IH Hn)].
+  intros Hin. apply Hx. apply in_map_iff in Hin. destruct Hin as [x [E Hxf]]. apply filter_In in Hxf.
+  apply in_map_iff. exists x. tauto.
+Qed.
+
 Lemma delete_p_exact sch st w :
   wf_schema sch -> Inv sch st -> stmt_class sch st (SDel TP w) = 0 ->
   exists ok st', do_delete sch TP st w = (ok, st') /\
@@ -448,7 +457,8 @@ Proof.
     split.
     - unfold exec_write.
       change (apply_stmt sch (visible (d_p st), visible (d_c st)) (SDel TP w)) with (P', filter g C).
-      rewrite Hval, Habs. reflexivity.
+      match goal with |- (if ?b then _ else _) = _ => assert (Hb : b = true) by exact Hval; rewrite Hb end.
+      rewrite Habs. reflexivity.
     - constructor.
       + rewrite Habs. exact Hval.
       + unfold st'. cbn [d_p d_next]. unfold sel. apply tinv_del; assumption.
@@ -511,16 +521,17 @@ Proof.
     destruct (act =? 2) eqn:A.
     + (* CASCADE *)
       apply Z.eqb_eq in A. subst act. rewrite child_scan_casc. exists true. eexists. split; [reflexivity|].
-      rewrite app_nil_r, (drop_ids_filter _ _ HndC).
+      rewrite app_nil_r.
       unfold abs_db at 1. apply Hmain.
-      * unfold visible. cbn [ents]. fold (visible (d_c st)). fold C.
+      * rewrite (drop_ids_filter _ _ HndC). unfold visible. cbn [ents]. fold (visible (d_c st)). fold C.
         rewrite (visible_filter_rows (hit vals j) (fun r => casc_row_from (s_c sch) r gone)); [reflexivity|].
         intros e He Le. rewrite (Hhit e He Le).
         rewrite Hcasc by (destruct Tc as [_ _ _ [Hrf _]]; apply row_fits_len; apply Hrf; exact He).
         rewrite Hvg. reflexivity.
       * (* the child table without the cascaded entries *)
+        rewrite (drop_ids_filter _ _ HndC).
         destruct Tc as [Hex Hnn [_ Hid] [Hrf Hli]]. constructor.
-        -- intros i d Hd K v Nv. unfold get_idx. cbn [idxs]. fold (get_idx (d_c st) i). rewrite (Hex i d Hd K v Nv).
+        -- intros i d Hdi K v Nv. unfold get_idx. cbn [idxs]. fold (get_idx (d_c st) i). rewrite (Hex i d Hdi K v Nv).
            unfold live_has. cbn [ents]. symmetry. apply existsb_filter_same.
            intros x Hx Gx. apply negb_false_iff in Gx. destruct (live x) eqn:Lx; [|reflexivity]. cbn [andb].
            (* x is live and cascaded: class 19 says it holds no key value *)
@@ -534,12 +545,12 @@ Proof.
                apply existsb_exists. exists (e_id x). split; [|apply Z.eqb_refl]. apply in_map. apply filter_In. split; assumption. }
              congruence. }
            assert (Hi : (i < length (e_row x))%nat).
-           { rewrite (row_fits_len _ _ (Hrf x Hx)). apply nth_error_Some. rewrite Hd. discriminate. }
-           pose proof (has_keyval_nth _ _ i d Hk Hd K Hi) as Hn. fold (col_val i (e_row x)) in Hn.
+           { rewrite (row_fits_len _ _ (Hrf x Hx)). apply nth_error_Some. rewrite Hdi. discriminate. }
+           pose proof (has_keyval_nth _ _ i d Hk Hdi K Hi) as Hn. fold (col_val i (e_row x)) in Hn.
            apply is_null_eq in Hn. rewrite Hn. destruct v; try discriminate; reflexivity.
         -- exact Hnn.
         -- unfold ids_ok. cbn [ents]. split.
-           ++ apply (NoDup_map_filter _ _ HndC).
+           ++ apply NoDup_map_filter. exact HndC.
            ++ intros e He. apply filter_In in He. apply Hid. tauto.
         -- unfold rows_ok. cbn [ents idxs]. split; [|exact Hli]. intros e He. apply filter_In in He. apply Hrf. tauto.
       * (* every remaining child still has its parent *)
@@ -560,7 +571,7 @@ Proof.
         { apply existsb_exists. exists e. split; [exact He|]. rewrite D. exact Hh. }
         congruence. }
       assert (Hg : forall r, In r C -> g r = true).
-      { intros r Hr. unfold g. rewrite (Hcasc r gone (HlenC r Hr)), A. reflexivity. }
+      { intros r Hr. unfold g. rewrite (Hcasc r gone (HlenC r Hr)). reflexivity. }
       destruct (existsb (hit vals j) (ents (d_c st))) eqn:B.
       * (* blocked: some child would lose its parent *)
         exists false, st. split; [reflexivity|]. split; [|exact I].
@@ -575,7 +586,8 @@ Proof.
           apply valid_split in Vd. destruct Vd as [_ [_ [_ [_ F]]]]. unfold fk_ok in F. rewrite forallb_forall in F.
           specialize (F _ Hr). rewrite (Hrow _ P' (HlenC _ Hr)) in F. fold (col_val j (e_row e)) in F.
           rewrite N in F. cbn [orb] in F. rewrite (Hkept _ N), Hm in F. rewrite andb_false_r in F. discriminate. }
-        rewrite Hbad. reflexivity.
+        match goal with |- (if ?b then _ else _) = _ => assert (Hb : b = false) by exact Hbad; rewrite Hb end.
+        reflexivity.
       * (* nothing references the deleted rows *)
         exists true. eexists. split; [reflexivity|]. unfold abs_db at 1. apply Hmain.
         -- rewrite drop_ids_nil. fold (visible (d_c st)). fold C. symmetry. exact (filter_true C g Hg).
@@ -597,8 +609,8 @@ Theorem delete_exact_l sch st t w :
                  exec_write sch (abs_db st) (SDel t w) = (ok, abs_db st') /\ Inv sch st'.
 Proof.
   intros W I Hc. cbn [impl_step]. destruct t.
-  - destruct (delete_p_exact sch st w W I Hc) as [ok [st' [H1 [H2 H3]]]]. exists ok, st'. rewrite H1. repeat split; assumption.
+  - destruct (delete_p_exact sch st w W I Hc) as [ok [st' [H1 [H2 H3]]]]. exists ok, st'. rewrite H1. split; [reflexivity|]. split; [exact H2|exact H3].
   - assert (Hd : has_dead (select_rows (s_c sch) (d_c st) w) = false).
     { cbn [stmt_class cols_of ts_of] in Hc. destruct (has_dead _); [discriminate|reflexivity]. }
-    destruct (delete_c_exact sch st w W I Hd) as [st' [H1 [H2 H3]]]. exists true, st'. rewrite H1. repeat split; assumption.
+    destruct (delete_c_exact sch st w W I Hd) as [st' [H1 [H2 H3]]]. exists true, st'. rewrite H1. split; [reflexivity|]. split; [exact H2|exact H3].
 Qed.
